@@ -412,7 +412,7 @@ impl Installer for SimInstaller {
                 let cs = g.script.checks.get(plan.check).cloned().unwrap_or_default();
                 let mut results = cs.results.clone();
                 results.resize(plan.offered, InstRes::Installed);
-                (cs.progress, results, g.script.gated.install, plan.check as u32, cs.detach_last_progress, cs.install_clock_step)
+                (cs.progress, results, g.script.gated.install, plan.check as u32, (cs.detach_last_progress, cs.detach_all_progress), cs.install_clock_step)
             };
             let n_progress = progress.len();
             for (pi, p) in progress.into_iter().enumerate() {
@@ -421,7 +421,7 @@ impl Installer for SimInstaller {
                     gate.await;
                 }
                 lock(&w).push(Ev::ProgressSent(p.to_bits()));
-                if detach && pi + 1 == n_progress {
+                if detach.1 || (detach.0 && pi + 1 == n_progress) {
                     // fire and forget: the value is handed over, the report future is dropped
                     if let Some(o) = observer {
                         let mut f = o.receive_progress(None, p, None, None);
@@ -528,7 +528,7 @@ impl Installer for SimInstaller {
                     meta: request_metadata.map(|m| MetaSnap {
                         body: m.request_body.clone(),
                         key_id: m.public_key_id,
-                        nonce_hex: m.nonce.to_string(),
+                        nonce_hex: { let b: [u8; 32] = m.nonce.into(); hex::encode(b) },
                     }),
                     response: Box::new(response.clone()),
                     bytes: response_bytes,
